@@ -129,6 +129,11 @@ func (k Keeper) GetNextSuperNodes(ctx sdk.Context, status uint32, reputation flo
 	}
 
 	snodes := k.GetAllSuperNodes(ctx)
+	if int(round[0]) >= len(snodes) {
+		// stale cursor (the set of super nodes shrank since it was stored): start over, otherwise
+		// the wrap-around exit test below is never met and the loop does not end
+		round = []byte{0}
+	}
 	i := uint8(round[0])
 	if len(snodes) > 0 {
 		for {
